@@ -402,9 +402,11 @@ def clause_warmup(ctx, dets):
                 rest = d + A("subwindow_size_thresh") - (const(1) if op == ">" else const(0))
                 if T.mentions(rest, lambda x: x == ("attr", "subwindow_size_thresh")):
                     continue
-                lv = {x[2] for x in T.atoms_of(rest, "loopvar") if x[2].startswith("$n_elements")}
-                if len(lv) == 1:
-                    subs.append(lv.pop())
+                lv = {x[2] for x in T.atoms_of(rest, "loopvar") if x[2].startswith("$")}
+                # the running size of one of the two sub-windows (a loop variable, possibly with this step's increment)
+                big = [n for n in lv if T.mentions(rest, lambda z: z[0] == "loopvar" and z[2] == n) and not T.mentions(rest, lambda z: z[0] == "pow" and T.mentions(z[2], lambda y: y[0] == "loopvar" and y[2] == n))]
+                if len(big) == 1:
+                    subs.append(big[0])
             ok = not missing and len(set(subs)) >= 2
             ctx.ob("GRD-warmup", cname + ".update", "guard of store 'drift'", ok,
                    ("missing: %s; sub-window guards on %s" % ("; ".join(q.short(m, 100) for m in missing), sorted(set(subs)))),
